@@ -241,7 +241,12 @@ pub fn damage(rd: &Rendered, op: usize, r: &mut Rng) -> Option<(String, String)>
                 let inner = t[open + 1..close].trim_end();
                 let sep = if inner.is_empty() || inner.ends_with(',') { "" } else { ", " };
                 let extra = if seq {
-                    if r.chance(1, 2) { format!("{sep}: : x}}") } else { "}".to_string() }
+                    match r.below(3) {
+                        0 => format!("{sep}: : x}}"),
+                        // crossed brackets: the `}` closes nothing that is open, the `{` is closed by `]`
+                        1 => format!("{sep}a: b}}, {{c: d "),
+                        _ => "}".to_string(),
+                    }
                 } else {
                     "]".to_string()
                 };
